@@ -81,7 +81,7 @@ impl DerivesRegistry {
         let DerivesRegistry {
             default_derives,
             mut specific_type_derives,
-            mut recursive_type_derives,
+            recursive_type_derives,
         } = self;
 
         if recursive_type_derives.is_empty() {
@@ -116,7 +116,8 @@ impl DerivesRegistry {
                 // this is only the case for types with empty path (i.e. builtin types).
                 continue;
             };
-            let Some(recursive_derives) = recursive_type_derives.remove(path) else {
+            // every registry type carrying the root path is a root (a generic root type has one id per instantiation)
+            let Some(recursive_derives) = recursive_type_derives.get(path).cloned() else {
                 continue;
             };
             // The collected_type_ids contain the id of the type itself and all ids of its fields:
